@@ -58,6 +58,7 @@ type srvEvent struct {
 }
 
 type srvRun struct {
+	lastReq map[int]int // tag -> the last ordinary (non-duplicate) request sent on it
 	res     *hx.Result
 	mu      sync.Mutex
 	cond    *sync.Cond
@@ -386,7 +387,7 @@ func runSrvScenario(sc srvScenario, scn int, res *hx.Result) []srvEvent {
 	r := &srvRun{res: res, sc: scn, sent: map[int]p9p.Message{}, gates: map[int]chan struct{}{}, ctxs: map[int]context.Context{},
 		entered: map[int]bool{}, honour: map[int]bool{}, faultCh: make(chan struct{}),
 		cout: map[int]int{}, fl: map[int]int{}, flOld: map[int]int{}, kind: map[int]string{}, released: map[int]bool{},
-		tagOf: map[int]int{}, dupPend: map[int]int{}}
+		tagOf: map[int]int{}, dupPend: map[int]int{}, lastReq: map[int]int{}}
 	r.cond = sync.NewCond(&r.mu)
 	r.uniform = scn%2 == 1
 	cli, srv := gconn.Pair(0)
@@ -463,7 +464,12 @@ func runSrvScenario(sc srvScenario, scn int, res *hx.Result) []srvEvent {
 			r.mu.Lock()
 			if src == -1 {
 				// a reply without payload: it answers the request outstanding on its tag, if that is of the matching kind
+				// (or, if that was flushed meanwhile, the last ordinary request the client sent on the tag: the
+				// contract then says whether that reply may still come)
 				src = r.cout[t]
+				if src == 0 || r.kind[src] != "req" {
+					src = r.lastReq[t]
+				}
 				want, err := srvResult(src, r.uniform, 0)
 				if src == 0 || err != nil || want.Type() != fc.Type {
 					kind = "other"
@@ -554,6 +560,9 @@ func runSrvScenario(sc srvScenario, scn int, res *hx.Result) []srvEvent {
 			}
 			r.sent[st.I] = msg
 			r.tagOf[st.I] = st.Tag
+			if st.Kind != "flush" && !dup {
+				r.lastReq[st.Tag] = st.I
+			}
 			if dup {
 				r.dupPend[st.Tag]++
 			}
